@@ -59,6 +59,9 @@ class Prop(object):
             for part in range(16):
                 u.append(('esk', {'cipher': 'AES128', 'recip': 'rsa2048', 'body': 'b17', 'part': part, 'parts': 16}))
         for c in self._ciphers(tier)[:2]:
+            for rc in ('pass', 'cv25519', 'rsa2048'):
+                u.append(('hashfault', {'cipher': c, 'recip': rc, 'body': 'b17'}))
+        for c in self._ciphers(tier)[:2]:
             u.append(('wrongkey', {'cipher': c}))
         for c in self._ciphers(tier)[:2]:
             u.append(('sequence', {'cipher': c, 'depth': 3 if tier == 'quick' else 4}))
@@ -94,19 +97,24 @@ class Prop(object):
                 e = R.key_recipient(x)[1].encrypt(e, cipher=c, sessionkey=sk)
         return m, bytes(e)
 
-    def _decrypt(self, blob, rc):
+    def _decrypt(self, blob, rc, fault=None):
         import pgpy
         e = pgpy.PGPMessage.from_blob(blob)
+        key = None if rc == 'pass' else R.key_recipient(rc)[0]
+        if fault is not None:
+            # (the fault is active while PGPy decrypts, not while the message or the key is loaded and not while the result is compared)
+            with fault:
+                return e, (e.decrypt(R.PASSPHRASE) if rc == 'pass' else key.decrypt(e))
         if rc == 'pass':
             return e, e.decrypt(R.PASSPHRASE)
-        return e, R.key_recipient(rc)[0].decrypt(e)
+        return e, key.decrypt(e)
 
-    def _outcome(self, blob, rc, m, alts=()):
+    def _outcome(self, blob, rc, m, alts=(), fault=None):
         """-> ('error', cls) | ('same', None) | ('no-plaintext', why) | ('different', description)
         no-plaintext: decrypt returned an object that holds no literal plaintext at all (no data packet was found and the
         input came back with a warning, or the result is itself an undecryptable encrypted container)."""
         try:
-            e, d = self._decrypt(blob, rc)
+            e, d = self._decrypt(blob, rc, fault)
         except Exception as e:
             return 'error', type(e).__name__
         if d is e:
@@ -221,6 +229,52 @@ class Prop(object):
         r.dim('cipher', case['cipher'])
         r.dim('recipient', rc)
         r.samples.append({'base': label0, 'faults': len(faults), 'examples': ['bit0.0', 'truncate-reframed-5', 'swap-blocks-0-1']})
+        return r
+
+    def c_hashfault(self, case):
+        """One deviation of the environment: the k-th digest PGPy asks for while decrypting is refused (every k), or every SHA-1 is refused - on the
+        untouched message and on the message with each octet of its encrypted data changed.  Decryption may fail; it never hands back a plaintext
+        that is not the original, and never any plaintext for a tampered message."""
+        from mc.faults import HashFaults
+        r = Res()
+        m, blob = self._start(r, case)
+        if m is None:
+            return r
+        rc = case['recip']
+        pk = self._split(blob)
+        esk = b''.join(p['raw'] for p in pk[:-1])
+        body = pk[-1]['body']
+        variants = [('untouched', blob, False)]
+        for i in range(1, len(body)):
+            b = bytearray(body)
+            b[i] ^= 0x01
+            variants.append(('data octet %d changed' % i, esk + wire.packet(18, b), True))
+        only = case.get('only')
+        ncalls = set()
+        for vname, vb, tampered in variants:
+            # how many digests the decryption asks for when none is refused
+            probe = HashFaults()
+            self._outcome(vb, rc, m, fault=probe)
+            ncalls.add(len(probe.calls))
+            faults = [('digest request #%d (%s) refused' % (k + 1, probe.calls[k]), dict(fail_at=k)) for k in range(len(probe.calls))]
+            faults += [('every %s refused' % nm, dict(fail_name=nm)) for nm in sorted(set(probe.calls))]
+            for fname, fkw in faults:
+                name = '%s / %s' % (vname, fname)
+                if only and name != only:
+                    continue
+                r.states += 1
+                r.transitions += 1
+                oc, info = self._outcome(vb, rc, m, fault=HashFaults(**fkw))
+                r.outcomes['hashfault:' + oc] += 1
+                tags = {'where': 'hash-fault', 'tampered': tampered, 'fault': fname.split(' (')[0].split(' #')[0]}
+                label = '%s/%s, %s' % (case['cipher'], rc, name)
+                if oc == 'different':
+                    r.viol('different-plaintext', tags, dict(case, only=name), '%s: decryption returned something other than the original plaintext (%s)' % (label, info))
+                elif tampered and oc == 'same':
+                    r.viol('must-raise', tags, dict(case, only=name), '%s: decryption of the tampered message succeeded' % label)
+        r.dim('cipher', case['cipher'])
+        r.dim('recipient', rc)
+        r.samples.append({'digest_requests_per_decryption': sorted(ncalls), 'variants': len(variants)})
         return r
 
     def c_esk(self, case):
